@@ -64,19 +64,20 @@ def specRem (x m : Rat) : Rat := x - ((x / m).floor : Int) * m
 
 def handleWrap (a mn mx : Rat) (impl : List String) : Verdict :=
   let m := mx - mn
-  if m == 0 then
+  match wrap a mn mx with
+  | none =>
+    -- the model itself says NaN (zero span): `x % 0.0`
     let v := Verdict.ok ["wrap", "degenerate"]
-    v.withDiff (!isNaNTok (impl.getD 0 "")) "x % 0 must be NaN"
-  else
+    v.withDiff (!isNaNTok (impl.getD 0 "")) "model: wrap into an empty interval (max = min) is NaN"
+  | some w =>
     let s := rmax3 a mn mx
     let tol := s * ratPow2 (-18) + tiny
     -- a few ulps of the quantities the last two additions work on
     let ulpTol := 4 * ratPow2 (-23) * ratMax s (ratAbs m) + tiny
-    let w := wrap a mn mx
     -- the same model function on the operands as `f32` holds them: `self.0 - min.0`, `max.0 - min.0`
     let xf := rn (a - mn)
     let mf := rn (mx - mn)
-    let wf := mn + remEuclid xf mf
+    let wfO : Option Rat := (remEuclid xf mf).map (mn + ·)
     let q := (a - mn) / m
     let revs := ratAbs q
     let tags := ["wrap", if m < 0 then "reversed" else if revs < 1 && 0 ≤ q then "inside" else if revs < 100 then "few-revs" else "many-revs",
@@ -90,7 +91,8 @@ def handleWrap (a mn mx : Rat) (impl : List String) : Verdict :=
       let nearEdge := ratAbs (w - lo) ≤ tol || ratAbs (hi - w) ≤ tol
       -- Either the exact value (loose: rewrites may round differently), or – this is the only way
       -- the *other* end of the interval is acceptable – the exact value for the rounded operands.
-      let close := absClose iw w tol || (mf != 0 && absClose iw wf ulpTol)
+      let wf := wfO.getD w
+      let close := absClose iw w tol || (wfO.isSome && absClose iw wf ulpTol)
       let v := v.withDiff (!close) s!"impl {ratApprox iw} model {ratApprox w} (on rounded operands {ratApprox wf}) tol {ratApprox tol}"
       let v := if nearEdge then v.addTag "near-boundary" else v
       let v := if absClose iw w tol then v else v.addTag "other-end-by-operand-rounding"
@@ -158,9 +160,11 @@ def handleOps (a b s : Rat) (impl : List String) : Verdict :=
   match parseAll impl with
   | some [ad, sb, ng, ml, dv, rm] =>
     let rel := ratPow2 (-22)
-    let model := [aadd a b, asub a b, aneg a, amul a s, adiv a s, arem a b]
+    -- `a % 0` is NaN in the model (`none`); a finite output can then not agree
+    let remOk := match arem a b with | some r => rm == r | none => false
+    let model := [aadd a b, asub a b, aneg a, amul a s, adiv a s, (arem a b).getD 0]
     let ok := relClose ad (aadd a b) rel && relClose sb (asub a b) rel && ng == aneg a && relClose ml (amul a s) rel
-      && relClose dv (adiv a s) rel && rm == arem a b
+      && relClose dv (adiv a s) rel && remOk
     let v := v.withDiff (!ok) s!"impl {fmt [ad, sb, ng, ml, dv, rm]} model {fmt model}"
     -- oracle: the operators are those of the underlying magnitude
     let v := v.withSpec (!(relClose ad (a + b) rel && relClose sb (a - b) rel && ng == -a)) "ops-additive" "add/sub/neg"
